@@ -131,6 +131,12 @@ func (c *cmp) expr(path string, w, g *Expr) {
 		}
 		c.expr(path+".left", w.L, g.L)
 		c.expr(path+".right", w.R, g.R)
+	case EStr:
+		// the value of a string literal is its characters, with the one escape the grammar
+		// knows (backslash quote) either kept as written or resolved
+		if w.Text != g.Text && strings.ReplaceAll(w.Text, "\\\"", "\"") != g.Text {
+			c.fail(path, "%s written %q, parsed %q", w.Kind, w.Text, g.Text)
+		}
 	default:
 		if w.Text != g.Text {
 			c.fail(path, "%s written %q, parsed %q", w.Kind, w.Text, g.Text)
